@@ -582,7 +582,16 @@ func propC18(c *Ctx) {
 	c.NotDecided = append(c.NotDecided, "determinism inside dependencies (e.g. connect's aggregator ranges over maps internally - A8)", "node-local ExecutorChangePlans being registered identically on all nodes (by design)")
 	c.Assumptions = append(c.Assumptions, "A1", "A8")
 	eff := c.W.BuildEffects()
-	fns := c.W.Funcs
+	// scope: the consensus packages only.  The thorough tier also loads
+	// contrib/launchtools (an off-chain launcher CLI: clocks, randomness and
+	// maps are legitimate there and never run inside a state transition).
+	var fns []*ssa.Function
+	for _, f := range c.W.Funcs {
+		if pk := f.Package(); pk != nil && strings.Contains(pk.Pkg.Path(), "/contrib/") {
+			continue
+		}
+		fns = append(fns, f)
+	}
 	for _, f := range fns {
 		c.FuncsAnalysed[fnShort(f)] = true
 	}
